@@ -152,6 +152,9 @@ def copies_stage(rep, quick):
     run_states(rep, "C07", sts, "str", {}, "copies")
     # Tree(forward_attrs=True) over data objects that have a `kind` attribute of their own
     run_states(rep, "C07", sts if not quick else sts[::3], "fwd", {}, "copies-fwd")
+    # trees with an id callback (equal-comparing objects keyed by the callback; unhashable dicts)
+    run_states(rep, "C07", sts if not quick else sts[1::3], "keyed", {}, "copies-keyed")
+    run_states(rep, "C07", sts if not quick else sts[2::3], "unhash", {}, "copies-unhashable")
     sts2 = labelled(rep, max_nodes=3, d=2, xids=(0, 11), label="copies:ids")
     run_states(rep, "C07", sts2, "str", {}, "copies-ids")
     sts3 = labelled(rep, max_nodes=3, d=2, typed=True, kinds=(0, 2), label="copies:typed")
